@@ -52,8 +52,8 @@ def use_line(u, style):
     return s.rstrip()
 
 
-def decl_lines(name, kind):
-    """(specification lines, contains lines)"""
+def decl_lines(name, kind, prot=False):
+    """(specification lines, contains lines); prot: a public variable also carries PROTECTED (it stays accessible by USE)"""
     if kind == "type":
         return [f"type :: {name}", "  integer :: v", f"end type {name}"], []
     if kind == "sub":
@@ -63,7 +63,7 @@ def decl_lines(name, kind):
     if kind == "absint":
         return ["abstract interface", f"  subroutine {name}()", f"  end subroutine {name}", "end interface"], []
     if kind == "var":
-        return [f"integer :: {name}"], []
+        return [f"integer, protected :: {name}" if prot else f"integer :: {name}"], []
     if kind == "generic":
         return [f"interface {name}", f"  module procedure {name}_impl", f"end interface {name}"], \
                [f"subroutine {name}_impl(x)", "  integer :: x", f"end subroutine {name}_impl"]
@@ -97,7 +97,8 @@ def render(mods, kindmap, style, placement="program"):
                 L.append(f"  {p} :: {n}")
         spec, cont = [], []
         for n in M["decls"]:
-            s_, c_ = decl_lines(n, kindmap[n])
+            eff = M["decls"][n] if M["decls"][n] != "none" else M["dflt"]
+            s_, c_ = decl_lines(n, kindmap[n], prot=(style == 1 and eff == "public"))
             spec += s_
             cont += c_
         L += ["  " + x for x in spec]
